@@ -68,16 +68,25 @@ def impl(check, fn, *args, allowed=(), **kwargs):
     except allowed as exc:  # type: ignore[misc]
         return Raised(exc)
     except Exception as exc:  # noqa: BLE001 - this *is* the gate
-        name = getattr(fn, "__qualname__", getattr(fn, "__name__", repr(fn)))
+        name = getattr(fn, "__qualname__", None) or getattr(fn, "__name__", None) or safe_repr(fn)
+        try:
+            text = str(exc)
+        except Exception as exc2:  # noqa: BLE001 - a message that cannot be rendered
+            text = f"<message not printable: {type(exc2).__name__}>"
         raise Violation(
             check,
-            f"{name}{_short(args)} raised {type(exc).__name__}: {_short(str(exc), 300)}",
+            f"{name}{_short(args)} raised {type(exc).__name__}: {_short(text, 300)}",
         ) from exc
 
 
 def expect(check, cond, message):
     if not cond:
-        raise Violation(check, message() if callable(message) else message)
+        if callable(message):
+            try:
+                message = message()
+            except Exception as exc:  # noqa: BLE001 - describing the failure must not hide it
+                message = f"<failure could not be described: {type(exc).__name__}: {exc}>"
+        raise Violation(check, message)
 
 
 def expect_eq(check, got, want, what):
@@ -86,8 +95,40 @@ def expect_eq(check, got, want, what):
         raise Violation(check, f"{what}: got {_short(got)}, expected {_short(want)}")
 
 
+def safe_repr(x):
+    """repr() that never raises (the printable form of an object is not under test)."""
+    try:
+        return repr(x)
+    except Exception as exc:  # noqa: BLE001
+        if isinstance(x, (tuple, list)):
+            return "(" + ", ".join(safe_repr(i) for i in x) + ")"
+        try:
+            return f"<{type(x).__name__} {int(x)}>"
+        except Exception:  # noqa: BLE001
+            return f"<{type(x).__name__}: repr raised {type(exc).__name__}>"
+
+
+class _Lazy:
+    """Wrap library objects inside an f-string: formatted only if the message is used."""
+
+    def __init__(self, x):
+        self.x = x
+
+    def __repr__(self):
+        return safe_repr(self.x)
+
+    __str__ = __repr__
+
+    def __format__(self, spec):
+        return safe_repr(self.x)
+
+
+def L(x):
+    return _Lazy(x)
+
+
 def _short(x, n=200):
-    s = x if isinstance(x, str) else repr(x)
+    s = x if isinstance(x, str) else safe_repr(x)
     return s if len(s) <= n else s[: n - 3] + "..."
 
 
